@@ -102,6 +102,8 @@ def build(case, vals, comp):
         vo["f"] = [v if isinstance(v, str) else space.str_form(v) for v in vals]
     else:
         quali.append("f")
+    if case.get("vocabulary") and kind == "CAT":  # the user lists the known categories of a NON-ordinal feature
+        vo["f"] = sorted(vals)
     for cname, ckind, _cv in comp if isinstance(comp, list) else ([comp] if comp is not None else []):
         (quanti if ckind == "QNT" else quali).append(cname)
     extra = dict(case.get("kw") or {})  # user-chosen sentinels (str_nan / str_default)
